@@ -268,6 +268,11 @@ impl Builder<AllTerms> {
         parent_id: I,
         child_id: J,
     ) -> HpoResult<()> {
+        // Both terms must exist before anything is modified, so that a
+        // failing call leaves the builder unchanged
+        if self.hpo_terms.get(child_id.into()).is_none() {
+            return Err(HpoError::DoesNotExist);
+        }
         let parent = self
             .hpo_terms
             .get_mut(parent_id.into())
@@ -470,6 +475,9 @@ impl Builder<ConnectedTerms> {
         gene_name: &str,
         term_id: HpoTermId,
     ) -> HpoResult<()> {
+        if self.hpo_terms.get(term_id).is_none() {
+            return Err(HpoError::DoesNotExist);
+        }
         self.add_gene(gene_name, gene_id);
         let gene = self
             .genes
@@ -527,6 +535,9 @@ impl Builder<ConnectedTerms> {
         omim_name: &str,
         term_id: HpoTermId,
     ) -> HpoResult<()> {
+        if self.hpo_terms.get(term_id).is_none() {
+            return Err(HpoError::DoesNotExist);
+        }
         self.add_omim_disease(omim_name, omim_id);
         let gene = self
             .omim_diseases
@@ -585,6 +596,9 @@ impl Builder<ConnectedTerms> {
         orpha_name: &str,
         term_id: HpoTermId,
     ) -> HpoResult<()> {
+        if self.hpo_terms.get(term_id).is_none() {
+            return Err(HpoError::DoesNotExist);
+        }
         self.add_orpha_disease(orpha_name, orpha_id);
         let gene = self
             .orpha_diseases
